@@ -30,15 +30,25 @@ def parseCall (c : String) : CallDef :=
       (dec k, kind, parseTmpl (dec body)),
     pre := nth p 4 == "u" }
 
+/-- `sleep<ms>`: the scenario's `sleep(ms)` pseudo request — time only, nothing on the wire -/
+def isSleep (r : String) : Bool :=
+  r.startsWith "sleep" && (r.toList.drop 5).all Char.isDigit && r.length > 5
+
 def parseScn (s : String) : ScenDef :=
   let p := s.splitOn ":"
   { name := nth p 0, weight := (nth p 1).toNat?.getD 0,
-    reqs := (splitList (nth p 2) "+").flatMap fun r =>
+    reqs := ((splitList (nth p 2) "+").filter (fun r => !isSleep r)).flatMap fun r =>
       let (name, cnt) := cut r '*'
       List.replicate (if cnt.isEmpty then 1 else cnt.toNat?.getD 1) name }
 
+/-- configured timeout in ms: `tmoms=` if present, else `tmo=` seconds -/
+def parseTmo (kv : List (String × String)) : Nat :=
+  match getN? kv "tmoms" with
+  | some ms => ms
+  | none => ((getN? kv "tmo").getD 0) * 1000
+
 def parseCfg (kv : List (String × String)) : Cfg :=
-  { tmo := (getN? kv "tmo").getD 0,
+  { tmo := parseTmo kv,
     users := (splitList (getS kv "users")).map dec,
     g := dec (getS kv "g"),
     calls := (splitList (getS kv "calls") ";").map parseCall,
@@ -48,14 +58,53 @@ def parseSched (s : String) : List Nat := s.toList.map fun c => c.toNat - 48
 
 def hasOther (es : List Entry) : Bool := es.any fun e => e.payload.any fun (_, v) => match v with | .other => true | _ => false
 
+/-- values whose treatment by the JSON → message library is not recorded in the model: numeric-looking texts that are
+not canonical literals (`05`, `+5`) -/
+def hasOddNumeric (es : List Entry) : Bool := es.any fun e => e.payload.any fun (_, v) =>
+  match v with
+  | .s t => oddNumeric t
+  | .n t => oddNumeric t
+  | _ => false
+
+def hasDup (l : List String) : Bool :=
+  match l with
+  | [] => false
+  | x :: xs => xs.contains x || hasDup xs
+
+/-- two payload keys naming the same field, or two metadata keys equal up to case (the library / transport decides
+which value wins, in map order) -/
+def hasDupKeys (es : List Entry) : Bool := es.any fun e =>
+  hasDup (e.md.map (·.1.toLower)) ||
+  (match lookupMethod e.call with
+   | some (_, fs) => hasDup (e.payload.map fun (k, _) => ((findField fs k).map (·.name)).getD ("?" ++ k))
+   | none => false)
+
+/-- variable texts are spliced into the JSON text of the payload by `text/template` unescaped: texts that need JSON
+escaping are outside the model -/
+def plainText (s : String) : Bool := s.toList.all fun c => c != '"' && c != '\\' && c.toNat ≥ 32
+
+def inconclusive (impl : String) : Bool := (impl.splitOn "|dl?").length > 1
+
 def handle : Handler := fun input impl =>
   let kv := parseKV input
+  if inconclusive impl then ("-", "skip:inconclusive-deadline") else
   match getS kv "mode" with
   | "table" => (tableText, if impl == tableText then "ok" else "fail:method-table:the reflected method table differs from the model's")
   | "json" =>
     let es := (splitList (getS kv "e") ";").map parseEntry
-    if hasOther es then ("-", "skip:unmodelled-value") else
-    let tmo := (getN? kv "tmo").getD 0
+    if hasOther es || hasOddNumeric es then ("-", "skip:unmodelled-value") else
+    if hasDupKeys es then ("-", "skip:duplicate-keys") else
+    let tmo := parseTmo kv
+    if getS kv "run" == "sched" then
+      let n := (getN? kv "n").getD 1
+      let sc := (getN? kv "sc").getD 0
+      let sched := parseSched (getS kv "sched")
+      if sched.any (· ≥ n) then ("-", "skip:bad-schedule") else
+      -- model: the pool of n instances bound the way `Bind` does it, entry k fired by instance sched[k]
+      let (_, tr) := runPool tmo (initPool n sc) sched es
+      let modelObs := traceText (tr.map fun (g, _, o) => (g, o)) ++ " conns=" ++ toString (connsUsed tr)
+      (modelObs, judgeTrace (expectedJsonSched tmo sched es) impl)
+    else
     -- model: every instance fires its share one entry at a time; the multiset does not depend on the split
     let (_, outs) := shootAll tmo { shots := 0 } es
     let (mc, ms) := multisetText outs
@@ -63,6 +112,8 @@ def handle : Handler := fun input impl =>
     ("run=- calls=" ++ mc ++ " samples=" ++ ms, judgeMultiset (exp.flatMap (·.calls)) (exp.flatMap (·.samples)) impl)
   | "scen" =>
     let c := parseCfg kv
+    if !(namesDistinct c.calls) then ("-", "skip:duplicate-call-names") else
+    if !(c.users.all plainText && plainText c.g) then ("-", "skip:unmodelled-variable-text") else
     if getS kv "run" == "engine" then
       ("-", judgeEngineScen c ((getN? kv "shots").getD 0) impl)
     else
